@@ -1374,4 +1374,246 @@ Proof.
       * right. exists x. split; [apply in_or_app; right; exact Ix|exact Ox].
 Qed.
 
+(* ================================================================== *)
+(* 6.5 ticks                                                           *)
+(* ================================================================== *)
+
+Lemma pget_some_in m id p : pget m id = Some p -> In id (pids m).
+Proof.
+  induction m as [|[k q] t IH]; cbn [pget pids map fst]; [discriminate|].
+  destruct (k =? id) eqn:E; [apply N.eqb_eq in E; left; exact E|]. intros H. right. apply IH. exact H.
+Qed.
+
+Lemma hb_msg_to r ctx id : m_to (hb_msg r ctx id) = id.
+Proof. unfold hb_msg. destruct ctx; reflexivity. Qed.
+
+Lemma leader_beat b X pr L2 hr hr' :
+  LCore X -> get_pr X f = Some pr -> PrInv b pr -> beat_phase X hr = Ok (L2, hr') ->
+  LCore L2 /\ get_pr L2 f = Some pr /\ r_heartbeat_timeout L2 = r_heartbeat_timeout X /\
+  exists new, r_msgs L2 = r_msgs X ++ new /\ Forall (fun x => m_to x = f -> snd_hb b x) new /\
+    (r_heartbeat_timeout X <= r_heartbeat_elapsed X ->
+       r_heartbeat_elapsed L2 = 0 /\ exists x, In x new /\ m_to x = f /\ m_type x = MsgHeartbeat) /\
+    (r_heartbeat_elapsed X < r_heartbeat_timeout X ->
+       r_heartbeat_elapsed L2 = r_heartbeat_elapsed X /\ new = []).
+Proof.
+  intros HC Hg HP H. unfold beat_phase in H.
+  destruct (r_heartbeat_timeout X <=? r_heartbeat_elapsed X) eqn:E.
+  - rewrite bcast_heartbeat_eq in H. cbn [bind] in H.
+    set (X0 := X <| r_heartbeat_elapsed := 0 |>) in *.
+    assert (Hctx : ro_last_pending_request_ctx (r_read_only X0) = None).
+    { unfold ro_last_pending_request_ctx. change (r_read_only X0) with (r_read_only X).
+      rewrite (lc_ro _ HC). reflexivity. }
+    rewrite Hctx in H. change (r_id X0) with (r_id X) in H. change (r_prs X0) with (r_prs X) in H.
+    change (r_msgs X0) with (r_msgs X) in H.
+    inversion H; subst L2 hr'; clear H.
+    split.
+    { destruct HC as [C1 C2 C3 C4 C5 C6 C7 C8]. constructor; cbn; auto. }
+    split; [exact Hg|]. split; [reflexivity|].
+    eexists. split; [reflexivity|].
+    assert (Hhb : snd_hb b (hb_msg X0 None f)).
+    { unfold snd_hb, hb_msg. change (get_pr X0 f) with (get_pr X f). rewrite Hg. cbn.
+      split; [reflexivity|]. split; [apply (lc_term _ HC)|]. split; [apply (lc_id _ HC)|].
+      split; [reflexivity|]. split; [pose proof (pi_b _ _ HP); lia|reflexivity]. }
+    split.
+    { apply Forall_forall. intros x Hx Hto. apply in_map_iff in Hx. destruct Hx as (id & <- & _).
+      rewrite hb_msg_to in Hto. subst id. exact Hhb. }
+    split.
+    + intros _. split; [reflexivity|]. exists (hb_msg X0 None f).
+      split; [|split; [apply hb_msg_to|reflexivity]].
+      apply in_map. apply filter_In. split.
+      * unfold get_pr in Hg. eapply pget_some_in. exact Hg.
+      * rewrite (lc_id _ HC). apply negb_true_iff. apply N.eqb_neq. congruence.
+    + intros Hlt. apply N.leb_le in E. lia.
+  - inversion H; subst L2 hr'; clear H. split; [exact HC|]. split; [exact Hg|]. split; [reflexivity|].
+    exists []. split; [rewrite app_nil_r; reflexivity|]. split; [constructor|].
+    split; [intros Hle; apply N.leb_gt in E; lia|]. intros _. auto.
+Qed.
+
+(* one tick of the leader *)
+Lemma leader_tick b L pr L2 hr :
+  LCore L -> get_pr L f = Some pr -> PrInv b pr -> tick L = Ok (L2, hr) ->
+  LCore L2 /\ get_pr L2 f = Some pr /\ r_heartbeat_timeout L2 = r_heartbeat_timeout L /\
+  exists new, r_msgs L2 = r_msgs L ++ new /\ Forall (fun x => m_to x = f -> snd_hb b x) new /\
+    (r_heartbeat_timeout L <= r_heartbeat_elapsed L + 1 ->
+       r_heartbeat_elapsed L2 = 0 /\ exists x, In x new /\ m_to x = f /\ m_type x = MsgHeartbeat) /\
+    (r_heartbeat_elapsed L + 1 < r_heartbeat_timeout L ->
+       r_heartbeat_elapsed L2 = r_heartbeat_elapsed L + 1 /\ new = []).
+Proof.
+  intros HC Hg HP H. pose proof HC as [C1 C2 C3 C4 C5 C6 C7 C8].
+  destruct (N.lt_ge_cases (r_election_elapsed L + 1) (r_election_timeout L)) as [He|He].
+  - rewrite (leader_heartbeats L C1 He) in H.
+    assert (HCX : LCore (ticked L)) by (constructor; cbn; auto).
+    apply (leader_beat b (ticked L) pr L2 false hr HCX Hg HP H).
+  - rewrite (checkquorum_stepdown L C1 He), C7 in H.
+    assert (HCX : LCore (after_check L false)) by (constructor; cbn; auto).
+    apply (leader_beat b (after_check L false) pr L2 false hr HCX Hg HP H).
+Qed.
+
+(* one tick of the follower while its election timer is not due *)
+Lemma follower_tick a F F2 hr :
+  FInv a F ->
+  r_promotable F = false \/ r_election_elapsed F + 1 < r_randomized_election_timeout F ->
+  tick F = Ok (F2, hr) ->
+  F2 = F <| r_election_elapsed := r_election_elapsed F + 1 |> /\ FInv a F2.
+Proof.
+  intros HF Hw H. rewrite tick_election_waits in H.
+  - inversion H; subst F2 hr. split; [reflexivity|].
+    destruct HF as [F1 F3 F4 F5 F6 F7 F8]. constructor; cbn; auto.
+  - rewrite (fi_state _ _ HF). discriminate.
+  - destruct Hw as [Hw|Hw]; [right; exact Hw|left; exact Hw].
+Qed.
+
+(* ================================================================== *)
+(* 6.6 one round                                                       *)
+(* ================================================================== *)
+
+Lemma to_peer_all id ms : Forall (fun x => m_to x = id) ms -> to_peer id ms = ms.
+Proof.
+  induction 1 as [|x t Hx Ht IH]; cbn [to_peer filter]; [reflexivity|].
+  rewrite Hx, N.eqb_refl. unfold to_peer in IH. rewrite IH. reflexivity.
+Qed.
+
+Lemma Forall_to_peer id (P : msg -> Prop) ms :
+  Forall (fun x => m_to x = id -> P x) ms -> Forall P (to_peer id ms).
+Proof.
+  intros H. apply Forall_forall. intros x Hx. unfold to_peer in Hx. apply filter_In in Hx.
+  destruct Hx as [Hin Hto]. apply N.eqb_eq in Hto. rewrite Forall_forall in H. apply H; assumption.
+Qed.
+
+Lemma In_to_peer id x ms : In x ms -> m_to x = id -> In x (to_peer id ms).
+Proof. intros H1 H2. unfold to_peer. apply filter_In. split; [exact H1|]. apply N.eqb_eq. exact H2. Qed.
+
+Lemma resp_chain_to a ms c : resp_chain a ms c -> Forall (fun x => m_to x = l) ms.
+Proof. induction 1; constructor; auto. destruct H0 as (_ & _ & Hto & _). exact Hto. Qed.
+
+(* the invariant at the round boundaries; Hb is the leader's heartbeat_timeout *)
+Record PairInv (Hb a : N) (L F : raft) : Prop := mkPairInv {
+  pv_core : LCore L;
+  pv_pr : exists pr, get_pr L f = Some pr /\ PrInv a pr;
+  pv_F : FInv a F;
+  pv_Fq : r_msgs F = [];
+  pv_q : Forall (qmsg_ok a) (to_peer f (r_msgs L));
+  pv_H : r_heartbeat_timeout L = Hb;
+  pv_timer : r_promotable F = false \/
+             (Hb + 1 < r_randomized_election_timeout F /\
+              (to_peer f (r_msgs L) = [] ->
+               r_election_elapsed F + (Hb - r_heartbeat_elapsed L) + 1
+                 < r_randomized_election_timeout F))
+}.
+
+Lemma lfr_fields r r' : lfr r r' ->
+  r_heartbeat_timeout r' = r_heartbeat_timeout r /\ r_heartbeat_elapsed r' = r_heartbeat_elapsed r.
+Proof. intros [H _]. rewrite H. split; reflexivity. Qed.
+
+Lemma follower_frame_fields A B : follower_frame A B ->
+  r_promotable B = r_promotable A /\
+  r_randomized_election_timeout B = r_randomized_election_timeout A /\ r_id B = r_id A.
+Proof. unfold follower_frame. intros H. rewrite H. repeat split; reflexivity. Qed.
+
+Lemma pair_round_inv Hb a L F L' F' pr :
+  PairInv Hb a L F -> get_pr L f = Some pr -> pair_round L F = Ok (L', F') ->
+  exists a' pr', a <= a' /\ PairInv Hb a' L' F' /\ get_pr L' f = Some pr' /\
+    matched pr <= matched pr' /\ (mu pr' < mu pr \/ pkey pr' = pkey pr) /\
+    ((exists x, In x (to_peer f (r_msgs L)) /\ obl pr x) -> mu pr' < mu pr) /\
+    ((exists x, In x (to_peer f (r_msgs L)) /\ m_type x = MsgHeartbeat) ->
+       matched pr < ll_last LL ->
+       mu pr' < mu pr \/ exists x, In x (to_peer f (r_msgs L')) /\ obl pr' x) /\
+    (Hb <= r_heartbeat_elapsed L + 1 ->
+       exists x, In x (to_peer f (r_msgs L')) /\ m_type x = MsgHeartbeat) /\
+    (r_heartbeat_elapsed L + 1 < Hb -> r_heartbeat_elapsed L' = r_heartbeat_elapsed L + 1).
+Proof.
+  intros [HC (pr0 & Hg0 & HP) HF HFq Hq HH Htm] Hg H.
+  rewrite Hg in Hg0. inversion Hg0; subst pr0; clear Hg0.
+  unfold pair_round in H. rewrite (fi_id _ _ HF), (lc_id _ HC) in H.
+  set (Q := to_peer f (r_msgs L)) in *.
+  inv_bind H. rename x into F1. inv_bind H. rename x into L1. inv_bind H. destruct x as [L2 hrl].
+  inv_bind H. destruct x as [F2 hrf]. cbn [fst] in H. inversion H; subst L' F'; clear H.
+  (* the follower *)
+  destruct (follower_steps Q a F F1 HF Hq Hx)
+    as (a1 & resps & La & HF1 & Fr1 & M1 & Ch & E1 & Eq1 & An & Hbr).
+  rewrite HFq in M1. cbn [app] in M1.
+  destruct (follower_frame_fields _ _ Fr1) as (Fp & Fra & Fid).
+  pose proof (ag_lastL _ _ _ _ (fi_agree _ _ HF1)) as Ha1.
+  (* the leader *)
+  rewrite M1, (to_peer_all l resps (resp_chain_to _ _ _ Ch)) in Hx0.
+  set (L0 := L <| r_msgs := [] |>) in *.
+  assert (HC0 : LCore L0) by (destruct HC; constructor; cbn; auto).
+  destruct (leader_steps resps a a1 Ch Ha1 L0 pr L1 HC0 Hg HP Hx0)
+    as (pr1 & new & S1 & S2 & S3 & S4 & S5 & S6 & S7 & S8 & S9 & S10).
+  cbn [app] in S2. change (r_msgs L0) with (@nil msg) in S2. cbn [app] in S2.
+  pose proof (lfr_LCore _ _ S1 HC0) as HC1.
+  destruct (lfr_fields _ _ S1) as [Ht1 He1].
+  change (r_heartbeat_timeout L0) with (r_heartbeat_timeout L) in Ht1.
+  change (r_heartbeat_elapsed L0) with (r_heartbeat_elapsed L) in He1.
+  destruct (leader_tick a1 L1 pr1 L2 hrl HC1 S4 S5 Hx1)
+    as (HC2 & Hg2 & Ht2 & hbs & M2 & Hhbs & Hfire & Hquiet).
+  rewrite S2 in M2. rewrite Ht1, HH in Ht2, Hfire, Hquiet. rewrite He1 in Hfire, Hquiet.
+  (* the follower's tick *)
+  set (F1c := F1 <| r_msgs := [] |>) in *.
+  assert (HF1c : FInv a1 F1c) by (destruct HF1; constructor; cbn; auto).
+  assert (Hwait : r_promotable F1c = false \/
+                  r_election_elapsed F1c + 1 < r_randomized_election_timeout F1c).
+  { change (r_promotable F1c) with (r_promotable F1).
+    change (r_election_elapsed F1c) with (r_election_elapsed F1).
+    change (r_randomized_election_timeout F1c) with (r_randomized_election_timeout F1).
+    rewrite Fp, Fra. destruct Htm as [Htm|[Htm1 Htm2]]; [left; exact Htm|right].
+    destruct Q as [|q0 qt] eqn:EQ.
+    - rewrite (Eq1 eq_refl). specialize (Htm2 eq_refl). lia.
+    - rewrite E1 by discriminate. lia. }
+  destruct (follower_tick a1 F1c F2 hrf HF1c Hwait Hx2) as [EF2 HF2].
+  exists a1, pr1. split; [exact La|]. split.
+  { constructor.
+    - exact HC2.
+    - exists pr1. auto.
+    - exact HF2.
+    - rewrite EF2. reflexivity.
+    - rewrite M2. apply Forall_to_peer. apply Forall_app. split.
+      + eapply Forall_impl; [|exact S3]. intros x Hx' Hto. left. apply Hx'. exact Hto.
+      + eapply Forall_impl; [|exact Hhbs]. intros x Hx' Hto. right. apply Hx'. exact Hto.
+    - exact Ht2.
+    - rewrite EF2. cbn [r_promotable r_randomized_election_timeout r_election_elapsed].
+      change (r_promotable (F1c <| r_election_elapsed := r_election_elapsed F1c + 1 |>))
+        with (r_promotable F1).
+      change (r_randomized_election_timeout (F1c <| r_election_elapsed := r_election_elapsed F1c + 1 |>))
+        with (r_randomized_election_timeout F1).
+      change (r_election_elapsed (F1c <| r_election_elapsed := r_election_elapsed F1c + 1 |>))
+        with (r_election_elapsed F1 + 1).
+      rewrite Fp, Fra. destruct Htm as [Htm|[Htm1 Htm2]]; [left; exact Htm|right].
+      split; [exact Htm1|]. intros Hempty.
+      (* no heartbeat was queued in this tick *)
+      assert (Hnf : r_heartbeat_elapsed L + 1 < Hb).
+      { destruct (N.lt_ge_cases (r_heartbeat_elapsed L + 1) Hb) as [Hlt|Hge]; [exact Hlt|].
+        destruct (Hfire Hge) as (_ & x & Ix & Tx & _). exfalso.
+        assert (Hin : In x (to_peer f (r_msgs L2))).
+        { apply In_to_peer; [rewrite M2; apply in_or_app; right; exact Ix|exact Tx]. }
+        rewrite Hempty in Hin. destruct Hin. }
+      destruct (Hquiet Hnf) as [Eh2 _]. rewrite Eh2.
+      destruct Q as [|q0 qt] eqn:EQ.
+      + rewrite (Eq1 eq_refl). specialize (Htm2 eq_refl). lia.
+      + rewrite E1 by discriminate. lia. }
+  split; [exact Hg2|]. split; [exact S6|]. split; [exact S7|].
+  split.
+  { (* an obligation in the queue is discharged *)
+    intros (x & Ix & (Sx & O1 & O2 & O3)).
+    destruct (An x Ix Sx) as (rep & Irep & (Rty & [(Rrj & Ridx)|(Rrj & Ridx)])).
+    - specialize (S8 rep Irep Rty Rrj).
+      apply (mu_lt_matched a1); [exact S5|exact Ha1|].
+      destruct Ridx as [Ridx|Ridx]; [|lia].
+      destruct O2 as [O2|O2]; [lia|].
+      destruct (m_entries x); [congruence|]. cbn [length] in Ridx. lia.
+    - apply (S9 rep Irep Rty Rrj). destruct (pi_state _ _ HP) as [Es|Es]; [right|left; exact Es].
+      rewrite Ridx. apply O3. exact Es. }
+  split.
+  { (* a heartbeat in the queue creates an obligation *)
+    intros (x & Ix & Tx) Hlt. destruct (Hbr x Ix Tx) as (rep & Irep & Rty).
+    destruct (S10 (ex_intro _ rep (conj Irep Rty)) Hlt) as [Hd|(y & Iy & Oy)]; [left; exact Hd|].
+    right. exists y. split; [|exact Oy].
+    apply In_to_peer; [rewrite M2; apply in_or_app; left; exact Iy|].
+    destruct Oy as ((_ & _ & _ & Hto & _) & _). exact Hto. }
+  split.
+  { intros Hge. destruct (Hfire Hge) as (_ & x & Ix & Tx & Ty). exists x. split; [|exact Ty].
+    apply In_to_peer; [rewrite M2; apply in_or_app; right; exact Ix|exact Tx]. }
+  intros Hlt. apply (Hquiet Hlt).
+Qed.
+
 End Pair.
